@@ -6,6 +6,8 @@ import (
 	"fmt"
 	"os"
 	"time"
+
+	"github.com/kubewharf/kubebrain/pkg/backend"
 )
 
 // KBDoubleSuccessStress runs the aligned-commit stress of c01 (probabilistic: a check-then-write window inside
@@ -53,6 +55,43 @@ func KBListHeaderStress(w *Writer, args Args, engines []string) {
 		w.Stats.Extra["list_header_stress_lists_"+e] = lists
 		n.Close()
 	}
+}
+
+// KBProxyCases adds the lost-reply cases of a follower's etcd proxy (c01).
+func KBProxyCases(w *Writer, args Args) {
+	n, err := NewKBNode(EngMem, args.Scratch)
+	if err != nil {
+		w.Fail(ImplFailure{CaseID: -1, What: "cannot open proxy leader node: " + err.Error()})
+		return
+	}
+	defer n.Close()
+	cs, err := n.RunProxyCases()
+	for _, c := range cs {
+		w.Add(Case{Coq: c.Coq(), JSON: c.JSON(), Kind: "etcd-proxy-lost-reply/memkv", Trivial: false, Outcomes: []string{"proxy_" + c.Resp.Class()}})
+	}
+	if err != nil {
+		w.Fail(ImplFailure{CaseID: -1, What: "etcd proxy cases: " + err.Error()})
+	}
+}
+
+// KBTwoNodeCase adds the leader/follower stamping case (c02) as an allocator case: the revisions of all
+// acknowledged writes in the order the requests completed must strictly increase.
+func KBTwoNodeCase(w *Writer, args Args) {
+	perNode, realtime, detail, err := TwoNodeStamps(args.Scratch)
+	if err != nil {
+		w.Fail(ImplFailure{CaseID: -1, What: "two-node case: " + err.Error()})
+		return
+	}
+	xs := make([]string, len(realtime))
+	for i, r := range realtime {
+		xs[i] = N(r)
+	}
+	outs := []string{"two_node_ok"}
+	if len(perNode) > 1 && len(perNode[1]) > 0 {
+		outs = []string{"follower_admitted_a_write"}
+	}
+	w.Add(Case{Coq: App("C2Tso", List([]string{List(xs)})), JSON: map[string]interface{}{"two_nodes_one_store_brain_front_end": detail, "acknowledged_revisions_in_completion_order": realtime, "per_node": perNode},
+		Kind: "two-node-brain", Trivial: false, Outcomes: outs})
 }
 
 // KBCompactRaces adds the compaction-vs-create race (c01) on the given engines.
@@ -133,6 +172,7 @@ type KBProfile struct {
 	Search     int
 	Exhaustive bool                // thorough: all interleavings of 2 writers x 2 ops
 	WrapCoq    func(string) string // optional constructor around the sched_case term
+	Fronts     bool                // also run the fixed corpus through the etcd RPCServer and the brain server (memkv)
 	SmallCache bool                // also run the out-of-order case on a node with watch cache size 64
 }
 
@@ -281,6 +321,13 @@ func KBCorpus() []KBSpec {
 			Progs: [][]KReq{{{Op: OpUpdate, Val: v("A"), Sym: SymCorrect}}, {{Op: OpUpdate, Val: v("B"), Sym: SymCorrect}}},
 			Pick:  FixedPick([][2]int{{0, 0}, {0, 0}, {1, 0}, {1, 0}, {1, 0}, {0, 0}})},
 	)
+	// an explicit compaction revision above the read revision must not collect what an in-flight write depends on
+	cs = append(cs,
+		KBSpec{Note: "create A of a live key is dealt c and held before its batch; delete B succeeds at d > c; Compact(d) is called (d is above the read revision); A resumes and must be refused",
+			Init: []int{InitLive}, Fix: kbFix, HasCompact: true, CompactAtStep: 4,
+			Progs: [][]KReq{{{Op: OpCreate, Val: v("A")}}, {{Op: OpDelete, Sym: SymCorrect}}},
+			Pick:  FixedPick([][2]int{{0, 0}, {1, 0}, {1, 0}, {1, 0}, {0, 0}})},
+	)
 	return append(cs, []KBSpec{
 		{Note: "two creators on one absent key, commits interleaved",
 			Init: []int{InitNever}, Fix: kbFix,
@@ -383,6 +430,40 @@ func KBDrive(w *Writer, args Args, prof KBProfile) {
 			run(e, spec, "corpus")
 		}
 	}
+	if prof.Fronts {
+		for _, fk := range []string{"etcd", "brain"} {
+			n, err := NewKBNode(EngMem, args.Scratch)
+			if err != nil {
+				w.Fail(ImplFailure{CaseID: -1, What: "cannot open front-end node: " + err.Error()})
+				continue
+			}
+			if fk == "etcd" {
+				n.Front = NewKBEtcdFront(n.B)
+			} else {
+				n.Front = NewKBBrainFront(n.B, true, nil)
+			}
+			nodes["front-"+fk] = n
+			for _, spec := range KBCorpus() {
+				if n.Dead {
+					break
+				}
+				c, err := n.RunCase(spec)
+				kind := "corpus-via-" + fk + "/memkv"
+				if err != nil {
+					w.Fail(ImplFailure{CaseID: w.Len(), What: fmt.Sprintf("%s: %v", kind, err), Case: c.JSON()})
+					continue
+				}
+				for _, pf := range c.ProbeFailures {
+					w.Fail(ImplFailure{CaseID: w.Len(), What: "follow-up probe after the schedule (" + fk + " front end): " + pf, Case: c.JSON()})
+				}
+				coq := c.Coq()
+				if prof.WrapCoq != nil {
+					coq = prof.WrapCoq(coq)
+				}
+				w.Add(Case{Coq: coq, JSON: c.JSON(), Kind: kind, Trivial: !c.Interleaved(), Outcomes: c.Outcomes()})
+			}
+		}
+	}
 	if prof.SmallCache {
 		// a node started with --watch-cache-size=64: one create is held at the gate while 200 later-allocated
 		// requests finish; the result slots must still be indexed by the full window
@@ -436,6 +517,28 @@ func KBDrive(w *Writer, args Args, prof KBProfile) {
 					Case: map[string]interface{}{"engine": EngMem, "idle_seconds_before_write": 55, "sequencer_held_at_seq.idle_seconds": 7, "create1": r1.JSON(), "create2": r2.JSON(), "read_revision": n.B.GetCurrentRevision()}})
 			}
 			w.Stats.Extra["idle_minute_case"] = "run"
+		}
+	}
+	if prof.SmallCache {
+		// burst of uncertain results with the repair loop running every millisecond (probabilistic)
+		backend.VerifSetIntervals(0, time.Millisecond)
+		n, err := NewKBNode(EngMem, args.Scratch)
+		backend.VerifSetIntervals(30*time.Millisecond, 10*time.Millisecond)
+		if err != nil {
+			w.Fail(ImplFailure{CaseID: -1, What: "cannot open burst node: " + err.Error()})
+		} else {
+			nodes["burst"] = n
+			d := map[string]time.Duration{"quick": 4 * time.Second, "thorough": 20 * time.Second, "search": 10 * time.Second}[args.Tier]
+			if d == 0 {
+				d = 4 * time.Second
+			}
+			what, detail, err := n.UncertainBurstStress(4, d)
+			if err != nil {
+				w.Fail(ImplFailure{CaseID: -1, What: fmt.Sprintf("uncertain-burst stress: %v", err)})
+			} else if what != "" {
+				w.Fail(ImplFailure{CaseID: -1, What: what, Case: detail})
+			}
+			w.Stats.Extra["uncertain_burst"] = detail
 		}
 	}
 	nMem, nOther := prof.Quick, prof.QuickOther
